@@ -371,6 +371,11 @@ func (s *pState) render(cw *cwriter.Writer) (err error) {
 func (s *pState) flush(cw *cwriter.Writer, height int, iter <-chan *Bar) error {
 	var popCount int
 	var rows []io.Reader
+	// Bars go back to the heap only after the iteration is over: while the heap
+	// manager hands out bars it cannot receive, and a push that overtakes or is
+	// overtaken by the requests of the next cycle leaves a bar out of that
+	// cycle's width sync or iteration.
+	var pending []pushData
 
 	for b := range iter {
 		frame := <-b.frameCh
@@ -378,6 +383,7 @@ func (s *pState) flush(cw *cwriter.Writer, height int, iter <-chan *Bar) error {
 		if frame.err != nil {
 			close(s.iterDrop)
 			b.cancel()
+			s.pushPending(pending)
 			return frame.err // b.frameCh is buffered it's ok to return here
 		}
 		var usedRows int
@@ -396,13 +402,13 @@ func (s *pState) flush(cw *cwriter.Writer, height int, iter <-chan *Bar) error {
 			if qb, ok := s.queueBars[b]; ok {
 				delete(s.queueBars, b)
 				qb.priority = b.priority
-				s.hm.push(qb, true)
+				pending = append(pending, pushData{qb, true})
 			} else if s.popCompleted && !frame.noPop {
 				b.priority = s.popPriority
 				s.popPriority++
-				s.hm.push(b, false)
+				pending = append(pending, pushData{b, false})
 			} else if !frame.rmOnComplete {
-				s.hm.push(b, false)
+				pending = append(pending, pushData{b, false})
 			}
 		case 2:
 			if s.popCompleted && !frame.noPop {
@@ -411,9 +417,11 @@ func (s *pState) flush(cw *cwriter.Writer, height int, iter <-chan *Bar) error {
 			}
 			fallthrough
 		default:
-			s.hm.push(b, false)
+			pending = append(pending, pushData{b, false})
 		}
 	}
+
+	s.pushPending(pending)
 
 	for i := len(rows) - 1; i >= 0; i-- {
 		_, err := cw.ReadFrom(rows[i])
@@ -423,6 +431,12 @@ func (s *pState) flush(cw *cwriter.Writer, height int, iter <-chan *Bar) error {
 	}
 
 	return cw.Flush(len(rows) - popCount)
+}
+
+func (s *pState) pushPending(pending []pushData) {
+	for _, data := range pending {
+		s.hm.push(data.bar, data.sync)
+	}
 }
 
 func (s pState) makeBarState(total int64, filler BarFiller, options ...BarOption) *bState {
